@@ -3,7 +3,7 @@ the probe's object descriptions over the fixture universe. Written from docs/*.m
 import re
 from vlib import gen
 
-ENVV = {"VERIF_A": "alpha", "VERIF_N": "42", "VERIF_E": "", "VERIF_NEG": "-7"}
+ENVV = {"VERIF_A": "alpha", "VERIF_N": "42", "VERIF_E": "", "VERIF_NEG": "-7", "VERIF_OCT": "010", "VERIF_HEX": "0x10"}
 
 
 def tags_of(s):
